@@ -94,7 +94,7 @@ def impl_writer(case):
                 blocked_log.append(t)
             return LineScheduler.block_until(self, pred)
 
-    sched = Sched(files=("eliot/logwriter.py",), timeout=10)
+    sched = Sched(files=("eliot/logwriter.py",))
     # the writer's stop sentinel, whatever it is called: the module-level plain object() instance
     STOP = getattr(lw, "_STOP", None)
     if STOP is None:
